@@ -135,23 +135,57 @@ for ci, c in enumerate(contents):
                  {"content": c, "context": cname})
         if cname == "top":
             # parse: in running text, at the very start of the page and at the start of a later line
-            for pre, post in (("X", "Y"), ("", "Y"), ("a\n", "")):
+            for (pre, post), pkw in itertools.product((("X", "Y"), ("", "Y"), ("a\n", "")),
+                                                     ({}, {"expand_all": True}, {"pre_expand": True})):
+                if pkw and ci % 5 and (pre, post) != ("X", "Y"):
+                    continue
                 ptext = pre + nw + post
                 ctx.start_page("Tt")
                 try:
                     with quiet_stdout():
-                        root = ctx.parse(ptext)
+                        root = ctx.parse(ptext, **pkw)
                 except Exception as ex:
                     fail("c15:parse#no-exception", f"{type(ex).__name__}: {ex}", {"content": c, "text": ptext}, type(ex).__name__)
                     continue
                 ks = kinds_of(root, [])
                 txt = "".join(texts_of(root, []))
                 if ks or (c != "" and decode(txt) != pre + c + post):
-                    fail("c15:parse#single-text-node", f"{ptext!r}: kinds {ks}, text {txt!r}", {"content": c, "text": ptext})
+                    ident, wc = "c15:parse#single-text-node", "value"
+                    # line starts inside the nowiki content (the first line only when nothing precedes it on its line)
+                    lines = (pre + c).split("\n")
+                    starts = lines[1:] + ([lines[0]] if pre == "" else [])
+                    unprotected = any(ln[:1] in (" ", "\t", ";") or ln.startswith("----") for ln in starts)
+                    if pkw and unprotected and ks and set(ks) <= {NodeKind.PREFORMATTED, NodeKind.LIST, NodeKind.LIST_ITEM,
+                                                                  NodeKind.HLINE}:
+                        # documented deviation: with an expansion switch the page is expanded to text before it is parsed,
+                        # and the quoting does not cover a blank, ';' or '----' at the start of a line
+                        ident, wc = ident + "[line-start-markup-under-expansion-switch]", "known-deviation:unquoted-line-start-markup"
+                    fail(ident, f"{ptext!r} {pkw}: kinds {ks}, text {txt!r}",
+                         {"content": c, "text": ptext, "options": pkw}, wc)
     distinct.add(c)
 samples.append({"content": contents[len(contents) // 2]})
 
 ctx = ctx_en
+# a template whose BODY contains a nowiki pair, transcluded on successive pages of one context (with other nowiki pairs
+# on the page, so that cookie numbers differ from page to page)
+ctx.add_page("Template:nwt", 10, "N<nowiki>{{a}} [[x]]</nowiki>M")
+for pi, ptext in enumerate(["{{nwt}}", "<nowiki>q</nowiki>{{nwt}}", "<nowiki>r</nowiki><nowiki>s</nowiki>{{nwt}}{{nwt}}", "{{id|{{nwt}}}}",
+                            "{{nwt}}"]):
+    ctx.start_page(f"P{pi}")
+    evaluations += 1
+    try:
+        with quiet_stdout():
+            out = ctx.expand(ptext)
+            root = ctx.parse(ptext, expand_all=True)
+    except Exception as ex:
+        fail("c15:expand#no-exception", f"{type(ex).__name__}: {ex}", {"content": "template body with nowiki", "text": ptext},
+             type(ex).__name__)
+        continue
+    ptxt = "".join(texts_of(root, []))
+    for what, got in (("expand", out), ("parse", ptxt)):
+        if decode(got).count("N{{a}} [[x]]M") != ptext.count("{{nwt}}") or any(0x10203D <= ord(ch) <= 0x10FFF0 for ch in got):
+            fail("c15:expand#nowiki-in-a-template-body-on-successive-pages",
+                 f"page {pi} {ptext!r}: {what} gives {got!r}", {"text": ptext, "page_index": pi}, "stale-cookie")
 # comments: the result equals that of the input with each comment (and the line break directly before it) deleted
 CT = ["a", "\n", "<!--c-->", "<!-- {{a}} -->", "{{a|x}}", " ", "* i", "<!--\n-->", "==h==\n"]
 clen = 3 if tier == "quick" else 4
